@@ -263,6 +263,36 @@ def asref_modules(c, named, variant):
     return out, rej
 
 
+def pointer_field_modules():
+    """Fields that are POINTERS to the listed type (`&'a F1`, `&'a mut F1`, `Box<F1>`, `Rc<F1>`) with `#[as_ref(F1)]` / `#[as_mut(F1)]`:
+    the listed type is NOT the field's type, so the derive forwards to the field's own impl - std's blanket impls for references
+    reach F1's own (instrumented, non-identity) `AsRef<F1>`, Box / Rc return the pointee. Whatever the field's impl returns is
+    the oracle, computed by calling it directly."""
+    out = []
+    forms = [("shared", "&'a F1", "<'a>", False), ("unique", "&'a mut F1", "<'a>", True), ("boxed", "Box<F1>", "", True),
+             ("rc", "std::rc::Rc<F1>", "", False)]
+    for named in (False, True):
+        for name, fty, g, has_mut in forms:
+            k = f"as_ref:pointer_field:{name}:{'named' if named else 'tuple'}"
+            attrs = "#[as_ref(F1)] " + ("#[as_mut(F1)] " if has_mut else "")
+            der = "derive_more::AsRef" + (", derive_more::AsMut" if has_mut else "")
+            body = f"{{ {attrs}pub a: {fty}, pub pad: u8 }}" if named else f"({attrs}pub {fty}, pub u8);"
+            f = "a" if named else "0"
+            mk = {"shared": "&f1", "unique": "&mut f1", "boxed": "Box::new(f1)", "rc": "std::rc::Rc::new(f1)"}[name]
+            init = f"S {{ a: {mk}, pad: 0 }}" if named else f"S({mk}, 0)"
+            rows = [f'rows.push(format!("as_ref {{}}", ad(AsRef::<F1>::as_ref(&s)) == ad(AsRef::<F1>::as_ref(&s.{f}))));']
+            exp = ["as_ref true"]
+            if has_mut:
+                rows.append(f'{{ let want = ad(AsRef::<F1>::as_ref(&s.{f})); AsMut::<F1>::as_mut(&mut s).g.0 = 77; '
+                            f'rows.push(format!("as_mut {{}} {{}}", AsRef::<F1>::as_ref(&s.{f}).g.0, ad(AsRef::<F1>::as_ref(&s.{f})) == want)); }}')
+                exp.append("as_mut 77 true")
+            mod = (f"use super::*;\n#[derive({der})]\npub struct S{g}{body}\npub fn run() {{ let mut rows: Vec<String> = vec![];\n"
+                   f"    #[allow(unused_mut)] let mut f1 = F1::new(1);\n    #[allow(unused_mut)] let mut s = {init};\n    " + "\n    ".join(rows) +
+                   f"\n    report({json.dumps(k)}, &rows); }}")
+            out.append((k, mod, exp))
+    return out
+
+
 def dst_modules(c, named, alias):
     """one-field structs whose field is the unsized `Dst`: the struct is unsized too, `&S` is made from a slice"""
     fs, sattr, doc = c["fs"], c["sattr"], c["asref"]
@@ -379,7 +409,7 @@ def run(chk, tier, seed, replay):
                 for k, m, e in dst_modules(c, named, alias):
                     mods.append((k, m))
                     exps[k] = (e, m)
-    for k, m, e in not_forward_modules() + into_iter_poison_modules():
+    for k, m, e in not_forward_modules() + into_iter_poison_modules() + pointer_field_modules():
         mods.append((k, m))
         exps[k] = (e, m)
     chk.notes["undocumented_mixed_styles_where_impl_differs"] = undocumented_dev
